@@ -308,6 +308,30 @@ func LexGrammar(o LexOpts) *rapid.Generator[*gr.Grammar] {
 				g.Prods = []gr.Prod{p}
 			}
 		}
+		if rapid.IntRange(0, 2).Draw(t, "spellChars") == 0 {
+			// character literals in other spellings than the canonical one: octal,
+			// \x, \u, \U, the character itself, \a \b \f \v
+			var walk func(p *gr.Pat)
+			walk = func(p *gr.Pat) {
+				if p == nil {
+					return
+				}
+				if p.Kind == gr.PLit || p.Kind == gr.PRange {
+					if rapid.Bool().Draw(t, "respellLo") {
+						p.FLo = rapid.IntRange(1, 7).Draw(t, "formLo")
+					}
+					if p.Kind == gr.PRange && rapid.Bool().Draw(t, "respellHi") {
+						p.FHi = rapid.IntRange(1, 7).Draw(t, "formHi")
+					}
+				}
+				for _, q := range p.Subs {
+					walk(q)
+				}
+			}
+			for i := range g.Lex {
+				walk(g.Lex[i].Pat)
+			}
+		}
 		return g
 	})
 }
